@@ -70,7 +70,7 @@ PROPS["C10"] = dict(
     note=EI_NOTE)
 PROPS["C11"] = dict(
     level="proof", contracts=["contracts.c11", "contracts.c13", "contracts.glue_small"],
-    unit_filter=lambda u: u.name.startswith("C11.") or u.name == "C13.push", legs=[], technique=TECH,
+    unit_filter=lambda u: u.name.startswith("C11.") or u.name == "C13.push", legs=[dict(name="c11_contexts", cmd="PYTHONPATH={repo} " + PY312 + " legs/c11_contexts.py")] + old_pythons("c11_contexts", "c11_contexts.py"), technique=TECH + "; bounded native cross-check",
     claim="fill_context's loop is cut by an invariant: elaborate_context runs on the current manager, unwrap_context sees it as elaborate left "
           "it; a returned manager replaces obj and resets inner_stack/children before re-elaboration (invariant for k>0); None stops with "
           "nothing else changed; PRUNE sets hide and stops; 100 iterations end in RuntimeError after one extra unwrap call; outside an "
@@ -78,9 +78,10 @@ PROPS["C11"] = dict(
           "(unwrap_generatorbased_contextmanager) is under contract in the C09/C11 glue units.",
     note="hooks as oracles: elaborate_context may set obj/inner_stack/children/hide/description/varname and raise; unwrap_context returns or raises")
 PROPS["C13"] = dict(
-    level="proof", contracts=["contracts.c13", "contracts.extract_iter", "contracts.c11"],
-    unit_filter=lambda u: u.name.startswith("C13.") or u.name in ("C05.extract_iter", "C11.fill_context.outside", "C11.fill_context.inside"),
-    legs=[], technique=TECH,
+    level="proof", contracts=["contracts.c13", "contracts.extract_iter", "contracts.c11", "contracts.c04"],
+    unit_filter=lambda u: u.name.startswith("C13.") or u.name in ("C05.extract_iter", "C11.fill_context.outside", "C11.fill_context.inside",
+                                                                  "C04.extract_until", "C04.extract_since"),
+    legs=[dict(name="c13_options", cmd="PYTHONPATH={repo} " + PY312 + " legs/c13_options.py")], technique=TECH + "; bounded native cross-check",
     claim="push() restores both fields on every exit of the with-body (normal or exceptional) and the body sees exactly the arguments; "
           "extract / extract_outermost push exactly their arguments and restore on every exit incl. the raise paths; extract_child refuses "
           "outside an extraction, returns a frameless stub (root only, no hook or generator step) for for_task without recursion, and "
